@@ -192,8 +192,8 @@ harnesses! {
     fn c01_q_push_miupac_l12 [7] { push_step!(masked::Iupac, oracle::MIUPAC, 25, 12) }
     fn c01_t_push_iupac_l15 [6] { push_step!(Iupac, oracle::IUPAC, 32, 15) }
     fn c01_t_push_iupac_l16 [6] { push_step!(Iupac, oracle::IUPAC, 32, 16) }
-    fn c01_t_push_text_l7 [10] { push_step!(text::Dna, oracle::TEXT, 16, 7) }
-    fn c01_t_push_text_l8 [10] { push_step!(text::Dna, oracle::TEXT, 16, 8) }
+    fn c01_t_push_text_l7 [10] { push_step!(text::Dna, oracle::TEXT_RAW, 16, 7) }
+    fn c01_t_push_text_l8 [10] { push_step!(text::Dna, oracle::TEXT_RAW, 16, 8) }
     fn c01_t_push_degen_l63 [3] { push_step!(degenerate::Dna, oracle::DEGEN, 128, 63) }
     fn c01_t_push_degen_l64 [3] { push_step!(degenerate::Dna, oracle::DEGEN, 128, 64) }
     fn c01_t_push_amino_l9 [8] { push_step!(Amino, oracle::AMINO, 21, 9) }
